@@ -133,6 +133,13 @@ impl Channel {
         chan.probe = probe;
     }
 
+    /// Drops all packets that are still queued in this channel.
+    pub(crate) fn dissolve_queue(&self) {
+        // release the lock before dropping the packets
+        let buffer = std::mem::take(&mut self.inner.write().unwrap().buffer);
+        drop(buffer);
+    }
+
     /// Sets the channel busy, announcing that the message will be trabńsmitted
     /// in '`sim_time`' time units.
     pub(crate) fn set_busy_until(&self, sim_time: SimTime) {
